@@ -665,6 +665,7 @@ class sx_memoryview(metaclass=_ShimMeta):
 _SYMTYPES = (SInt, SBool, SBytes, SByteArray, SView)
 _TYPEMAP = {_int: (SInt, SBool), bool: (SBool,), _bytes: (SBytes,), _bytearray: (SByteArray,),
             _memoryview: (SView,), object: _SYMTYPES}
+_CONTAINER_MAP = {}
 
 
 def sx_isinstance(obj, cls):
@@ -680,6 +681,13 @@ def sx_isinstance(obj, cls):
             elif c in _TYPEMAP and _isinstance(obj, _TYPEMAP[c]):
                 return True
         return False
+    if _isinstance(obj, (SymSet, SymDict)):
+        classes = cls if _isinstance(cls, tuple) else (cls,)
+        for c in classes:
+            if c is set and _isinstance(obj, SymSet):
+                return True
+            if c is dict and _isinstance(obj, SymDict):
+                return True
     return _isinstance(obj, cls)
 
 
@@ -956,6 +964,284 @@ def _format_bytes(fmt, args):
         else:
             raise Unsupported('format conversion %%%s' % chr(conv))
     return mk_bytes(out)
+
+
+# ----------------------------------------------------------------------------------------------
+# sets / dicts keyed by possibly symbolic values (association lists, insertion ordered)
+
+class SymSet(object):
+    """set replacement: equality of members is decided symbolically (forks when undetermined)."""
+
+    def __init__(self, items=()):
+        self._l = []
+        for x in items:
+            self.add(x)
+
+    @staticmethod
+    def _eq(a, b):
+        if _isinstance(a, tuple) and _isinstance(b, tuple):
+            if _len(a) != _len(b):
+                return False
+            return s_and(*[SymSet._eq(x, y) for x, y in zip(a, b)])
+        if a is None or b is None:
+            return a is b
+        return _sym_eq(a, b)
+
+    def _find(self, x):
+        for i, y in enumerate(self._l):
+            if SymSet._eq(x, y):        # forks when undetermined
+                return i
+        return -1
+
+    def add(self, x):
+        if self._find(x) < 0:
+            self._l.append(x)
+
+    def remove(self, x):
+        i = self._find(x)
+        if i < 0:
+            raise KeyError(x)
+        del self._l[i]
+
+    def discard(self, x):
+        i = self._find(x)
+        if i >= 0:
+            del self._l[i]
+
+    def pop(self):
+        if not self._l:
+            raise KeyError('pop from an empty set')
+        return self._l.pop()
+
+    def clear(self):
+        del self._l[:]
+
+    def copy(self):
+        r = SymSet()
+        r._l = list(self._l)
+        return r
+
+    def update(self, *others):
+        for o in others:
+            for x in o:
+                self.add(x)
+
+    def union(self, *others):
+        r = self.copy()
+        r.update(*others)
+        return r
+
+    def intersection(self, *others):
+        r = SymSet()
+        for x in self._l:
+            if all(SymSet(o)._find(x) >= 0 for o in others):
+                r._l.append(x)
+        return r
+
+    def difference(self, *others):
+        r = SymSet()
+        for x in self._l:
+            if all(SymSet(o)._find(x) < 0 for o in others):
+                r._l.append(x)
+        return r
+
+    def issubset(self, other):
+        o = other if _isinstance(other, SymSet) else SymSet(other)
+        return all(o._find(x) >= 0 for x in self._l)
+
+    def __or__(self, o):
+        return self.union(o)
+
+    __ror__ = __or__
+
+    def __and__(self, o):
+        return self.intersection(o)
+
+    __rand__ = __and__
+
+    def __sub__(self, o):
+        return self.difference(o)
+
+    def __rsub__(self, o):
+        return SymSet(o).difference(self)
+
+    def __ior__(self, o):
+        self.update(o)
+        return self
+
+    def __iter__(self):
+        return iter(list(self._l))
+
+    def __len__(self):
+        return _len(self._l)
+
+    def __bool__(self):
+        return _len(self._l) > 0
+
+    def __contains__(self, x):
+        return self._find(x) >= 0
+
+    def __sx_contains__(self, x):
+        return s_or(*[SymSet._eq(x, y) for y in self._l])
+
+    def __eq__(self, o):
+        if not _isinstance(o, (SymSet, set, frozenset)):
+            return False
+        o = o if _isinstance(o, SymSet) else SymSet(o)
+        return self.issubset(o) and o.issubset(self)
+
+    def __ne__(self, o):
+        return not self.__eq__(o)
+
+    __hash__ = None
+
+    def __repr__(self):
+        return 'SymSet(%r)' % (self._l,)
+
+
+class sx_set(metaclass=_ShimMeta):
+    _real = set
+    _sym = (SymSet,)
+
+    def __new__(cls, *args):
+        return SymSet(*args)
+
+    @staticmethod
+    def union(*sets):
+        r = SymSet()
+        r.update(*sets)
+        return r
+
+    @staticmethod
+    def intersection(first, *sets):
+        return SymSet(first).intersection(*sets)
+
+
+class SymDict(object):
+    """dict replacement with symbolic key equality (insertion ordered association list)."""
+
+    def __init__(self, *args, **kw):
+        self._k = []
+        self._v = []
+        if args:
+            src = args[0]
+            for k, v in (src.items() if hasattr(src, 'items') else src):
+                self[k] = v
+        for k, v in kw.items():
+            self[k] = v
+
+    def _find(self, k):
+        for i, y in enumerate(self._k):
+            if SymSet._eq(k, y):
+                return i
+        return -1
+
+    def __getitem__(self, k):
+        i = self._find(k)
+        if i < 0:
+            raise KeyError(k)
+        return self._v[i]
+
+    def __setitem__(self, k, v):
+        i = self._find(k)
+        if i < 0:
+            self._k.append(k)
+            self._v.append(v)
+        else:
+            self._v[i] = v
+
+    def __delitem__(self, k):
+        i = self._find(k)
+        if i < 0:
+            raise KeyError(k)
+        del self._k[i]
+        del self._v[i]
+
+    def __contains__(self, k):
+        return self._find(k) >= 0
+
+    def __sx_contains__(self, k):
+        return s_or(*[SymSet._eq(k, y) for y in self._k])
+
+    def get(self, k, default=None):
+        i = self._find(k)
+        return default if i < 0 else self._v[i]
+
+    def pop(self, k, *default):
+        i = self._find(k)
+        if i < 0:
+            if default:
+                return default[0]
+            raise KeyError(k)
+        v = self._v[i]
+        del self._k[i]
+        del self._v[i]
+        return v
+
+    def setdefault(self, k, default=None):
+        i = self._find(k)
+        if i < 0:
+            self[k] = default
+            return default
+        return self._v[i]
+
+    def update(self, other=(), **kw):
+        for k, v in (other.items() if hasattr(other, 'items') else other):
+            self[k] = v
+        for k, v in kw.items():
+            self[k] = v
+
+    def keys(self):
+        return list(self._k)
+
+    def values(self):
+        return list(self._v)
+
+    def items(self):
+        return list(zip(self._k, self._v))
+
+    def clear(self):
+        del self._k[:]
+        del self._v[:]
+
+    def copy(self):
+        r = SymDict()
+        r._k, r._v = list(self._k), list(self._v)
+        return r
+
+    def __iter__(self):
+        return iter(list(self._k))
+
+    def __len__(self):
+        return _len(self._k)
+
+    def __bool__(self):
+        return _len(self._k) > 0
+
+    def __eq__(self, o):
+        if not _isinstance(o, (SymDict, dict)):
+            return False
+        if _len(o) != _len(self):
+            return False
+        for k, v in self.items():
+            if k not in o:
+                return False
+            if not (o[k] == v):
+                return False
+        return True
+
+    __hash__ = None
+
+    def __repr__(self):
+        return 'SymDict(%r)' % (self.items(),)
+
+
+class sx_dict(metaclass=_ShimMeta):
+    _real = dict
+    _sym = (SymDict,)
+
+    def __new__(cls, *args, **kw):
+        return SymDict(*args, **kw)
 
 
 # ----------------------------------------------------------------------------------------------
